@@ -950,11 +950,14 @@ def emit_fn(unit, blk, rel):
     if blk.closures:
         toks_b = body.toks()
         cls = find_closures(toks_b)
-        if max(k for k in blk.closures if isinstance(k, int)) > len(cls):
-            raise ExtractError(f"lost anchor: contract of {name} converts closure {max(k for k in blk.closures if isinstance(k, int))}, body has {len(cls)}")
+        conv = [k for k in blk.closures if isinstance(k, int) and blk.closures[k].get("mode") != "annotate"]
+        if conv and max(conv) > len(cls):
+            raise ExtractError(f"lost anchor: contract of {name} converts closure {max(conv)}, body has {len(cls)}")
         edits = []
         top = sorted(k for k in blk.closures if isinstance(k, int))
         for k in top:
+            if k > len(cls):
+                continue      # an annotation (R18) for a closure that no longer exists: nothing to annotate
             (s, po, pc, bs, be) = cls[k - 1]
             ca = blk.closures[k]
             cbody = body.text[toks_b[bs].start:toks_b[be].end]
